@@ -57,7 +57,10 @@ C = {
          "satisfied only if the original formula is (unbounded depth/width)",
          "converse direction; `match <group>` completes at exactly the first satisfying event (real interpreter, all short event sequences)",
          "groups are acyclic trees of Spec leaves; a class is never both Spec and dict; frozen-heap value mode"),
- "C08": ("FlowState.finished_event / _create_out_event: the FlowFinished event carries return_value == the instance's `_return_value` context entry whenever "
+ "C08": ("the positional-binding loop of _start_flow (block contract): with P = the number of leading positional arguments `$0..$P-1` present, the context "
+         "variable of the i-th declared parameter IS the value of `$i` for every i < P - any value, None / False / 0 / containers included - every "
+         "other context variable (named arguments, defaults) is untouched, and only ColangRuntimeError can be raised; "
+         "FlowState.finished_event / _create_out_event: the FlowFinished event carries return_value == the instance's `_return_value` context entry whenever "
          "that entry exists, for every value incl. None/False/0/empty containers (what `$x = await flow` assigns)", "parameter binding / defaults / return values / private locals through the real interpreter on enumerated signatures x call forms x value types, "
                "concurrent instances, mutable defaults", "dataclass constructors modelled from the real field lists; attribute reads on objects assumed present"),
  "C09": ("the leaf operations of the dispatch index, for every state of the two maps: _remove_head_from_event_matching_structures removes exactly one "
